@@ -109,6 +109,10 @@ def probe_strategy(bytes_pool, lines_pool):
         st.tuples(cell_machine(), memread()).map(lambda t: {"k": "eval", "m": t[0], "s": t[1]}),
         st.tuples(st.sampled_from(SEGMEM), st.sampled_from(SEGSETS), st.sampled_from(SEGSETS)).map(lambda t: {"k": "relift", "b": t[0], "first": t[1], "second": t[2]}),
         st.lists(b, min_size=1, max_size=4).map(lambda l: {"k": "emul", "b": l}),
+        st.lists(st.sampled_from(REPS), min_size=1, max_size=4).map(lambda l: {"k": "emul", "b": ["fc"] + l}),
+        st.tuples(st.sampled_from(SHARED_REGS), st.lists(st.sampled_from(REPS + MOVES), min_size=1, max_size=3)).map(lambda t: {"k": "emul-shared", "regs": t[0], "b": t[1]}),
+        st.sampled_from(FAM_LINES).map(lambda t: {"k": "asm", "l": t[1], "att": int(t[0])}),
+        st.sampled_from(FAM_LINES).map(lambda t: {"k": "asm", "l": t[1], "att": int(t[0])}),
     )
 
 
@@ -121,9 +125,53 @@ RETS = ["c3", "66c3", "cb", "66cb", "c20400", "66c20400", "ca0800", "c9", "cf", 
 X87 = ["d9%02x" % m for m in range(0xE0, 0x100)] + ["ded9", "dae9", "d8d9", "d8c1", "dcc1", "dec1", "d8e1", "dce1", "d8e9", "dce9", "d9c9", "ddd9", "dde1", "dfe0"]
 
 
+# rep-prefixed string instructions with the set-up that makes their count concrete; state dictionaries for the shared-dictionary probe
+REPS = ["b903000000", "b901000000", "be00200000", "bf00300000", "b041", "f3a4", "f3a5", "f3aa", "f3ab", "f3a6", "f2ae", "f3ac", "89ca", "89cb", "51", "59", "49", "e2fe"]
+SHARED_REGS = [{"ecx": 3, "df": 0}, {"ecx": 0, "df": 0}, {"ecx": 2, "df": 1, "eax": 0x41}, {"ecx": 1, "df": 0, "esi": 0x2000, "edi": 0x3000}, {"eax": 7, "ebx": 9}]
+# assembly lines that share their operand TEXT across mnemonics, among them the contexts in which the assembler adjusts a parsed operand
+# (push WORD PTR imm, lea, prefetch, pextrw / pinsrw / shufps, x87 memory forms): what one line does to an operand must not reach the next
+OPTEXTS = ["WORD PTR 20", "[esi+48]", "DWORD PTR [eax+4]", "WORD PTR [ebx]", "20", "[ebx+ecx*2]", "BYTE PTR [edi]", "QWORD PTR [esi+48]"]
+TEMPLATES = ["push {}", "mov ax, {}", "mov eax, {}", "lea eax, {}", "inc {}", "prefetcht0 {}", "fild {}", "pinsrw xmm1, {}, 1", "cmp {}, 3", "movzx ecx, {}", "fld {}", "pop {}"]
+ATT_OPTEXTS = ["20", "48(%esi)", "4(%eax)", "(%ebx)", "$20", "(%ebx,%ecx,2)"]
+ATT_TEMPLATES = ["pushw {}", "pushl {}", "movw {}, %ax", "movl {}, %eax", "leal {}, %eax", "incl {}", "prefetcht0 {}", "filds {}", "cmpl $3, {}", "movzwl {}, %ecx"]
+FAM_LINES = [(False, t.replace("{}", o)) for o in OPTEXTS for t in TEMPLATES] + [(False, "pextrw eax, xmm1, 3"), (False, "shufps xmm1, xmm2, 3"), (False, "pinsrw xmm1, eax, 3")] + \
+            [(True, t.replace("{}", o)) for o in ATT_OPTEXTS for t in ATT_TEMPLATES]
+
+
+def line_pairs():
+    """every ordered pair of family lines with the same operand text (same syntax), as two-call histories"""
+    out = []
+    for att, texts, temps in ((0, OPTEXTS, TEMPLATES), (1, ATT_OPTEXTS, ATT_TEMPLATES)):
+        for o in texts:
+            for a in temps:
+                for b in temps:
+                    if a != b:
+                        out.append([{"k": "asm", "l": a.replace("{}", o), "att": att}, {"k": "asm", "l": b.replace("{}", o), "att": att}])
+    return out
+
+
+def w_pairs(run, st_, k, chunk):
+    zyg = ZYGOTES[k % len(ZYGOTES)]
+    for h in chunk:
+        st_.ev()
+        fails = run_history(h, zyg)
+        st_.klass("operand-text-pair")
+        bad = False
+        for f in fails:
+            sig, det = runner.norm_sig(f[0]), f[1]
+            if sig in run.known:
+                st_.known_hits[sig] += 1
+            else:
+                bad = True
+                if not any(x[0] == sig for x in st_.failures):
+                    st_.fail(sig, det, {"history": f[2] if len(f) > 2 else h})
+        if not bad:
+            st_.nt(json.dumps(h, sort_keys=True))
+
+
 def families(pool):
     """groups of byte strings whose decodings share table rows / helper results (same implicit operand, same sub-register objects)"""
-    fams = {"accumulator": [x for x in ACC if x in pool], "x87": [x for x in X87 if x in pool], "returns": [x for x in RETS if x in pool], "moves": [x for x in MOVES if x in pool],
+    fams = {"rep": [x for x in REPS if x in pool], "accumulator": [x for x in ACC if x in pool], "x87": [x for x in X87 if x in pool], "returns": [x for x in RETS if x in pool], "moves": [x for x in MOVES if x in pool],
             "x87-stack": [x for x in ("d9f7", "d9f6", "d9f1", "d9f3", "d9f9", "d8d9", "ddd9", "dae9", "ded9", "dec1", "d9c9") if x in pool],
             "subreg": [x for x in pool if len(x) in (4, 6) and x[:2] in ("88", "8a", "86", "00") or x[:4] in ("6689", "0fb6", "6601")]}
     return dict((k, v) for k, v in fams.items() if v)
@@ -212,7 +260,7 @@ def pools(run):
     # implicit-accumulator and x87 forms (operands come from shared descriptors / helper lists), and
     # sub-register forms: their operands are the shared slice objects of the register tables
     with runner.quiet():
-        for x in ACC + X87 + RETS + MOVES:
+        for x in ACC + X87 + RETS + MOVES + REPS + ["fc", "fd"]:
             try:
                 if x86mnemo.dis(bytes.fromhex(x)) is not None:
                     bs.append(x)
@@ -346,6 +394,24 @@ def cache_matrix(run):
         open(os.path.join(d, fs[0]), "w").write(b)
         open(os.path.join(d, fs[1]), "w").write(a)
         configs.append(("table-of-another-grammar", d))
+    # tables of "another revision" in which two rule functions of the same shape are bound the other way round (same LR automaton, same
+    # function names, another signature): a parser that trusts the file instead of checking the signature acts on the wrong rule
+    import re as _re
+    for f in sorted(x for x in os.listdir(ref_dir) if x.endswith(".py")):
+        src = open(os.path.join(ref_dir, f)).read()
+        prods = _re.findall(r"\('[^']*','(\w+)',(\d+),'(\w+)','[^']*',\d+\)", src)
+        groups = {}
+        for lhs, ln, fn in prods:
+            groups.setdefault((lhs, ln), [])
+            if fn not in groups[(lhs, ln)]:
+                groups[(lhs, ln)].append(fn)
+        pairs = [(g[0], g[1]) for _, g in sorted(groups.items()) if len(g) >= 2]
+        for n, (fa, fb) in enumerate(pairs[:run.pick(4, 12)]):
+            d = populated("rebound-%s-%d" % (f[:-3], n))
+            s2 = src.replace("'%s'" % fa, "'\0'").replace("'%s'" % fb, "'%s'" % fa).replace("'\0'", "'%s'" % fb)
+            s2 = _re.sub(r"_lr_signature = (b?)'[^\n]*", lambda m: "_lr_signature = %s'tables of another revision of the grammar'" % m.group(1), s2)
+            open(os.path.join(d, f), "w").write(s2)
+            configs.append(("rebound-productions:%s:%s<->%s" % (f[4:-12], fa, fb), d))
     # tables written by an "earlier revision" of the grammars: today's sources minus one precedence declaration, same table names
     d = fresh("stale")
     repo = os.environ.get("VERIF_REPO", "/repo")
@@ -394,9 +460,16 @@ def main(run):
     run.assumptions = ["a zygote forked before any API call defines the empty-history result", "object identity and repr addresses are never compared",
                        "cmt / arg_expr attributes of instruction objects are outputs and not part of the input snapshot"]
     bs, lines = pools(run)
+    # self-test of the compound probes: a probe that raises inside the harness would compare "EXC" with "EXC" and never fail
+    for p_ in ({"k": "emul-shared", "regs": SHARED_REGS[0], "b": ["f3aa"]}, {"k": "emul-shared", "regs": SHARED_REGS[2], "b": ["f3a4", "89ca"]}, {"k": "emul", "b": ["fc", "b903000000", "f3aa"]}):
+        r_ = ZYGOTES[0].result(p_)
+        if not isinstance(r_, list) or not any(x.startswith("@8[") for x in r_):
+            raise runner.Inconclusive("probe self-test failed: %s -> %r" % (json.dumps(p_), r_))
     only = os.environ.get("VERIF_C12_ONLY")        # developer switch
     if only in (None, "hist"):
         runner.pmap(run, w_hist, [(run.pick(60, 1500), bs, lines)] * 16)
+        prs = line_pairs()
+        runner.pmap(run, w_pairs, runner.chunks(prs if run.tier == "thorough" else prs[run.seed % 3::3], 16))
     if only in (None, "cache"):
         cache_matrix(run)
     for z in ZYGOTES:
